@@ -61,7 +61,8 @@ CHECKS = {
          "outputs are the requested outputs in order, every entry under the name it was requested with and with the concrete type of "
          "its Var (IOFacts: a named Var is only ever bound to its name; bindings never change); with drop_unused_inputs exactly the "
          "inputs some output depends on (validator io_exact); TypeError/ValueError/KeyError rules of the public wrapper. CORRESPONDENCE: exact rendering + exception class on permuted/subset/extra/malformed requests. ORACLE: "
-         "independent dependency walker; drop cases repeated in fresh processes under 4 PYTHONHASHSEEDs.",
+         "independent dependency walker; drop cases repeated in fresh processes under 4 PYTHONHASHSEEDs; requests with a dozen further "
+         "outputs; onnxruntime-vs-numpy oracle for the value each output carries; unlisted arguments reached only through nested bodies.",
     note=TB + "Hash-seed independence of the real code is established by execution, not proof.",
     technique="Coq proof + exact correspondence + multi-process hash-seed repeats",
     ref="4 C03"),
